@@ -1773,20 +1773,25 @@ def _corr_mode(d):
 
 
 MANIFEST = dict(
-    text=('Lean theorems, for every history over {initTrial, changeSource, evaluate (with its error path), grad2}, every world of '
-          'leaf functions and any scalar type: the invariant "cache content = pure function of the current data at the cached key" '
-          'is kept by every operation; every evaluate of a history (trace theorem), and hence an evaluation after any history, '
-          'returns what the stateless evaluator and a freshly built object graph return and raises exactly when they raise; no '
-          'array is truncated across trials of different size; PDF value caching on/off is invisible; a cache hit implies same '
-          'state id and grid key; the second derivative is that of the last successful evaluation of the current trial (ns and '
-          'point in the token) and is refused otherwise. The executable model (run at a bit-pattern scalar, the very instance the '
-          'theorems cover) is compared with a real likelihood object graph on every run; fresh-vs-used, caching-on/off, byte-snapshot '
-          'and intermediate-evaluate oracles search for failing histories, also on a PDFRatioProduct around the real I3 spline ratio.'),
-    note=('Hypotheses (a) state id advances, (b) hit test is key equality, and the three resets are discharged for facts PROBED on the '
-          'current classes (five small histories through public methods), not pattern-matched in the source. Modelled layers: state id, '
-          'interpolation cache, pd caches, ns-gradient provenance, DataField cache (PDF-ratio values/gradients per source and event). '
-          'Oracle-only: SourceWeightedPDFRatio, PDFRatioProduct, the initialize_for_new_trial cascade / _cache_eventdata, the I3 spline '
-          'ratio cache, log-lambda and gradient vector (C01/C02), the second-derivative number, L-BFGS maximisation and TS. Not '
-          'exercised: event-selection methods, J >= 2 datasets, NR1d maximiser, photospline tables, BackgroundI3SpatialPDF.'),
+    text=('Lean theorems (47), for every history, every world of leaf functions and any scalar type. Lower layers (state id, '
+          'interpolation cache, per-grid-point and background pd caches, event selection blocks): the invariant "cache content = '
+          'pure function of the current data at the cached key", the trace theorem (every evaluate of a history, incl. failing '
+          'ones, answers like the stateless evaluator), no truncation across trials of different size, caching flags invisible, '
+          'hit implies same key. Upper layers (CacheTop): the real call sequences (initialize_trial, the initialize_for_new_trial '
+          'cascade, change_shg_mgr) refine the fused operations; source-weighted ratio, log-lambda, its ns-gradient and the '
+          'second-derivative NUMBER after any history equal the stateless top-level evaluator; the composite likelihood of several '
+          'datasets (value, ns-gradient, f_j^2-weighted second derivative, weight-service state) likewise. Counterexample theorems '
+          'for every unrepaired variant and for a violated call order. The executable model (bit-pattern scalar = the proved '
+          'instance) is compared with real object graphs on every run: ratios, log-lambda, gradients, second derivatives, raised / '
+          'refused, also on call sequences that violate the documented order on purpose; fresh-vs-used, caching on/off, byte '
+          'snapshot, repeated-query, caller-side-form and intermediate-evaluate oracles search for failing histories.'),
+    note=('Hypotheses (a) state id advances, (b) hit test is key equality, and the resets are discharged for facts PROBED on the '
+          'current classes (five small histories through public methods). Assumptions named in the evidence: well-formed leaf tables '
+          '(checked by the fixture), complete call sequences for the top-level transparency theorems, grids without 0.0/NaN. '
+          'Oracle-only: array aliasing (service arrays, handed-out views), PDFRatioProduct, the I3 spline ratio cache, gamma '
+          'components of the LLH gradient vector (C02), L-BFGS maximisation and TS, static data fields as TDM state under a '
+          'violated call order. Not exercised: NR1d maximiser, photospline tables, BackgroundI3SpatialPDF, J > 2, change of the '
+          'number of sources.'),
     design='DESIGN.md section 4 C06',
-    technique='Lean 4 proof (state-machine refinement, induction over histories) + model/implementation correspondence on histories')
+    technique='Lean 4 proof (state-machine refinement in three layers, induction over histories) + model/implementation '
+              'correspondence on histories and call sequences')
